@@ -1,1 +1,474 @@
+(** C29 — proofs about the wrapper model ([Model/C29.v]). *)
 From Verif Require Import Base.Prelude Model.C28 Proofs.C28 Model.C29.
+
+(** "The caller holds q": its token is active and one of its permissions grants q, in the
+    sense of the property C28 characterises ([grants]). *)
+Definition holds (c : caller) (q : perm) : Prop :=
+  c_active c = true /\ exists p, In p (c_perms c) /\ grants p q.
+
+Lemma held_iff c q : held c q = true <-> holds c q.
+Proof. unfold held, holds. rewrite andb_true_iff, allowed_iff. tauto. Qed.
+
+Lemma authorize1_ok c q : authorize1 c q = AzOk -> holds c q.
+Proof.
+  unfold authorize1. destruct (negb (valid_req q)); [discriminate|].
+  destruct (held c q) eqn:E; [|discriminate]. intros _. apply held_iff; exact E.
+Qed.
+
+Lemma authorize_all_ok c qs : authorize_all c qs = AzOk -> Forall (holds c) qs.
+Proof.
+  induction qs as [|q r IH]; cbn; intro H; [constructor|].
+  destruct (authorize1 c q) eqn:E; try discriminate.
+  constructor; [apply authorize1_ok; exact E | apply IH; exact H].
+Qed.
+
+Lemma az_cls_not_ok a : a <> AzOk -> az_cls a = E_UNAUTH \/ az_cls a = E_OTHER.
+Proof. destruct a; cbn; intro H; auto. congruence. Qed.
+
+Lemma kind_eqb_eq a b : kind_eqb a b = true <-> a = b.
+Proof. destruct a, b; cbn; split; intro H; congruence. Qed.
+
+Lemma is_res_spec k id r : is_res k id r = true <-> r_kind r = k /\ r_id r = id.
+Proof. unfold is_res. rewrite andb_true_iff, kind_eqb_eq, N.eqb_eq. tauto. Qed.
+
+Lemma lookup_some s k id r :
+  lookup s k id = Some r -> In r (s_res s) /\ r_kind r = k /\ r_id r = id.
+Proof.
+  unfold lookup. intro H. apply find_some in H as [H1 H2]. apply is_res_spec in H2. tauto.
+Qed.
+
+Lemma of_kind_in s k r : In r (of_kind s k) <-> In r (s_res s) /\ r_kind r = k.
+Proof. unfold of_kind. rewrite filter_In, kind_eqb_eq. tauto. Qed.
+
+Lemma candidates_in s k f rs :
+  candidates s k f = inl rs -> forall r, In r rs -> In r (s_res s) /\ r_kind r = k.
+Proof.
+  destruct f as [|i|o|u]; cbn.
+  - intros [= <-] r. apply of_kind_in.
+  - destruct (lookup s k i) as [r0|] eqn:E; [|discriminate]. intros [= <-] r [<-|[]].
+    apply lookup_some in E. tauto.
+  - intros [= <-] r Hin. apply filter_In in Hin as [Hin _]. apply of_kind_in; exact Hin.
+  - destruct k; intros [= <-] r Hin; apply filter_In in Hin as [Hin _]; apply of_kind_in; exact Hin.
+Qed.
+
+Lemma authz_filter_sound c rs l :
+  authz_filter c rs = inl l ->
+  forall id, In id l -> exists r, In r rs /\ r_id r = id /\ authorize_all c (read_reqs r) = AzOk.
+Proof.
+  revert l. induction rs as [|r t IH]; cbn; intros l H id Hin.
+  - inversion H; subst. destruct Hin.
+  - destruct (authorize_all c (read_reqs r)) eqn:E; try discriminate.
+    + destruct (authz_filter c t) as [l'|e] eqn:E'; [|discriminate].
+      inversion H; subst. destruct Hin as [<-|Hin].
+      * exists r. auto.
+      * destruct (IH l' eq_refl id Hin) as [r' [H1 H2]]. exists r'. split; [right; exact H1 | exact H2].
+    + destruct (IH l H id Hin) as [r' [H1 H2]]. exists r'. split; [right; exact H1 | exact H2].
+Qed.
+
+(** Completeness of the filter: every candidate the caller may read is returned. *)
+Lemma authz_filter_complete c rs l :
+  authz_filter c rs = inl l ->
+  forall r, In r rs -> authorize_all c (read_reqs r) = AzOk -> In (r_id r) l.
+Proof.
+  revert l. induction rs as [|r0 t IH]; cbn; intros l H r Hin Hok; [destruct Hin|].
+  destruct (authorize_all c (read_reqs r0)) eqn:E; try discriminate.
+  - destruct (authz_filter c t) as [l'|e] eqn:E'; [|discriminate]. inversion H; subst.
+    destruct Hin as [->|Hin]; [left; reflexivity | right; eapply IH; eauto].
+  - destruct Hin as [->|Hin]; [congruence | eapply IH; eauto].
+Qed.
+
+Lemma authz_filter_err c rs e : authz_filter c rs = inr e -> e = E_OTHER.
+Proof.
+  induction rs as [|r t IH]; cbn; [discriminate|].
+  destruct (authorize_all c (read_reqs r)); auto; [|intros [= <-]; reflexivity].
+  destruct (authz_filter c t); [discriminate|]. intros [= <-]. apply IH; reflexivity.
+Qed.
+
+(** The check-first methods of OrgService / UserService authorize on the id alone: the
+    permissions they build for the stub are those of the stored resource. *)
+Lemma read_reqs_stub k id r :
+  lookup_first_find k 0 = false -> r_kind r = k -> r_id r = id -> read_reqs (stub k id) = read_reqs r.
+Proof. destruct r as [rk ri ro ru rs rp ra rps]; cbn. intros H <- <-. destruct rk; cbn in *; try discriminate; reflexivity. Qed.
+
+Lemma read_reqs_stub' k v id r :
+  lookup_first_find k v = false -> r_kind r = k -> r_id r = id -> read_reqs (stub k id) = read_reqs r.
+Proof. destruct r as [rk ri ro ru rs rp ra rps]; cbn. intros H <- <-. destruct rk; cbn in *; try discriminate; reflexivity. Qed.
+
+Lemma write_reqs_stub k id r :
+  lookup_first_mut k = false -> r_kind r = k -> r_id r = id -> write_reqs (stub k id) = write_reqs r.
+Proof. destruct r as [rk ri ro ru rs rp ra rps]; cbn. intros H <- <-. destruct rk; cbn in *; try discriminate; reflexivity. Qed.
+
+(** * no_leak *)
+
+Definition call_kind (x : call) : kind :=
+  match x with
+  | CFind1 k _ _ | CFindN k _ | CUpdate k _ _ _ _ | CDelete k _ _ => k
+  | CCreate _ new _ => r_kind new
+  end.
+
+(** id names a stored resource of kind k every read permission of which the caller holds. *)
+Definition readable_in (c : caller) (s : store) (k : kind) (id : N) : Prop :=
+  exists r, In r (s_res s) /\ r_kind r = k /\ r_id r = id /\ Forall (holds c) (read_reqs r).
+
+Lemma find1_no_leak c s k v id i :
+  In i (ids (find1 c s k v id)) -> readable_in c s k i.
+Proof.
+  unfold find1. destruct (lookup_first_find k v) eqn:LF.
+  - destruct (lookup s k id) as [r|] eqn:L; [|intros []].
+    destruct (authorize_all c (read_reqs r)) eqn:A; cbn; [|intros []|intros []].
+    intros [<-|[]]. apply lookup_some in L as [L1 [L2 L3]].
+    exists r. repeat split; auto. apply authorize_all_ok; exact A.
+  - destruct (authorize_all c (read_reqs (stub k id))) eqn:A; cbn; [|intros []|intros []].
+    destruct (lookup s k id) as [r|] eqn:L; cbn; [|intros []].
+    intros [<-|[]]. apply lookup_some in L as [L1 [L2 L3]].
+    exists r. repeat split; auto. apply authorize_all_ok.
+    rewrite <- (read_reqs_stub' k v id r LF L2 L3). exact A.
+Qed.
+
+Lemma findn_no_leak c s k f i :
+  In i (ids (findn c s k f)) -> readable_in c s k i.
+Proof.
+  unfold findn.
+  set (f' := match k, f with
+             | KOrg, FNone => match authorize1 c (mk A_READ T_ORG None None) with AzOk => FNone | _ => FUser (c_user c) end
+             | _, _ => f end).
+  destruct (candidates s k f') as [rs|e] eqn:C; [|intros []].
+  destruct (authz_filter c rs) as [l|e] eqn:F; [|intros []].
+  cbn. intro Hin. destruct (authz_filter_sound c rs l F i Hin) as [r [H1 [H2 H3]]].
+  destruct (candidates_in s k f' rs C r H1) as [H4 H5].
+  exists r. repeat split; auto. apply authorize_all_ok; exact H3.
+Qed.
+
+Lemma err_ids e s : ids (err e s) = [].
+Proof. reflexivity. Qed.
+
+Lemma svc_create_ids c s new sysids : ids (svc_create c s new sysids) = [].
+Proof.
+  unfold svc_create. destruct (r_kind new); cbn;
+    repeat match goal with |- context [if ?b then _ else _] => destruct b; cbn end; reflexivity.
+Qed.
+
+Lemma create_ids c s v new sysids : ids (create c s v new sysids) = [].
+Proof.
+  unfold create. destruct (authorize_all c (create_reqs new)); try reflexivity.
+  destruct (r_kind new) eqn:K; try apply svc_create_ids.
+  destruct (negb (verify_perms c (r_perms new))); [reflexivity|].
+  destruct (_ && _); [reflexivity | apply svc_create_ids].
+Qed.
+
+Lemma svc_update_ids s k id pay a : ids (svc_update s k id pay a) = [].
+Proof. unfold svc_update. destruct (lookup s k id); reflexivity. Qed.
+
+Lemma svc_delete_ids s k id : ids (svc_delete s k id) = [].
+Proof.
+  unfold svc_delete. destruct (lookup s k id) as [r|]; [|reflexivity].
+  destruct k; try reflexivity. destruct (r_sys r); reflexivity.
+Qed.
+
+Lemma guarded_mut_ids c s k id inner : ids inner = [] -> ids (guarded_mut c s k id inner) = [].
+Proof.
+  intro H. unfold guarded_mut. destruct (lookup_first_mut k).
+  - destruct (lookup s k id) as [r|]; [|reflexivity].
+    destruct (authorize_all c (write_reqs r)); auto.
+  - destruct (authorize_all c (write_reqs (stub k id))); auto.
+Qed.
+
+Theorem no_leak c s x i :
+  In i (ids (step c s x)) -> readable_in c s (call_kind x) i.
+Proof.
+  destruct x as [k v id|k f|v new sysids|k v id pay a|k v id]; cbn [step call_kind].
+  - apply find1_no_leak.
+  - apply findn_no_leak.
+  - rewrite create_ids. intros [].
+  - unfold update. rewrite guarded_mut_ids by apply svc_update_ids. intros [].
+  - unfold delete. rewrite guarded_mut_ids by apply svc_delete_ids. intros [].
+Qed.
+
+(** Reads never modify the store. *)
+Lemma find1_state c s k v id : st (find1 c s k v id) = s.
+Proof.
+  unfold find1. destruct (lookup_first_find k v).
+  - destruct (lookup s k id) as [r|]; [|reflexivity]. destruct (authorize_all c (read_reqs r)); reflexivity.
+  - destruct (authorize_all c (read_reqs (stub k id))); try reflexivity. destruct (lookup s k id); reflexivity.
+Qed.
+
+Lemma findn_state c s k f : st (findn c s k f) = s.
+Proof.
+  unfold findn.
+  match goal with |- context [candidates s k ?f'] => destruct (candidates s k f') as [rs|e] end; [|reflexivity].
+  destruct (authz_filter c rs); reflexivity.
+Qed.
+
+(** Find-many is also complete: nothing readable is withheld (for the plain filters). *)
+Theorem findn_complete c s k f l :
+  (k = KOrg -> f <> FNone) ->
+  findn c s k f = done l s ->
+  forall rs r, candidates s k f = inl rs -> In r rs ->
+    authorize_all c (read_reqs r) = AzOk -> In (r_id r) l.
+Proof.
+  intros Hk H rs r C Hin Hok. unfold findn in H.
+  assert (E : match k, f with
+              | KOrg, FNone => match authorize1 c (mk A_READ T_ORG None None) with AzOk => FNone | _ => FUser (c_user c) end
+              | _, _ => f end = f).
+  { destruct k; try reflexivity. destruct f; try reflexivity. exfalso. apply Hk; reflexivity. }
+  rewrite E, C in H. destruct (authz_filter c rs) as [l'|e] eqn:F.
+  - inversion H; subst. eapply authz_filter_complete; eauto.
+  - apply authz_filter_err in F. subst e. discriminate.
+Qed.
+
+(** * mutation_requires_write and token_no_escalation *)
+
+Definition target (s : store) (k : kind) (id : N) : rsrc :=
+  match lookup s k id with Some r => r | None => stub k id end.
+
+(** What the property demands of a mutating call. *)
+Definition write_authorized (c : caller) (s : store) (x : call) : Prop :=
+  match x with
+  | CCreate _ new _ =>
+      Forall (holds c) (create_reqs new) /\
+      (r_kind new = KAuth -> Forall (holds c) (r_perms new))
+  | CUpdate k _ id _ _ | CDelete k _ id => Forall (holds c) (write_reqs (target s k id))
+  | _ => True
+  end.
+
+Lemma err_not_ok_unchanged e s : e <> E_OK -> ~ (cls (err e s) = E_OK \/ st (err e s) <> s).
+Proof. intros He [H|H]; cbn in H; congruence. Qed.
+
+Lemma verify_perms_ok c ps : verify_perms c ps = true -> Forall (holds c) ps.
+Proof.
+  unfold verify_perms. rewrite forallb_forall, Forall_forall. intros H q Hq. apply held_iff, H, Hq.
+Qed.
+
+Lemma create_requires c s v new sysids :
+  let r := create c s v new sysids in
+  cls r = E_OK \/ st r <> s -> write_authorized c s (CCreate v new sysids).
+Proof.
+  cbn. unfold create. destruct (authorize_all c (create_reqs new)) eqn:A.
+  - destruct (r_kind new) eqn:K; intros H;
+      try (split; [apply authorize_all_ok; exact A | intro; discriminate]).
+    destruct (negb (verify_perms c (r_perms new))) eqn:V.
+    + exfalso. revert H. apply err_not_ok_unchanged. discriminate.
+    + split; [apply authorize_all_ok; exact A|]. intros _.
+      apply verify_perms_ok. apply negb_false_iff in V. exact V.
+  - intro H. exfalso. revert H. apply err_not_ok_unchanged. discriminate.
+  - intro H. exfalso. revert H. apply err_not_ok_unchanged. discriminate.
+Qed.
+
+Lemma guarded_mut_requires c s k id inner :
+  let r := guarded_mut c s k id inner in
+  cls r = E_OK \/ st r <> s -> Forall (holds c) (write_reqs (target s k id)).
+Proof.
+  cbn. unfold guarded_mut, target. destruct (lookup_first_mut k) eqn:LF.
+  - destruct (lookup s k id) as [r|] eqn:L.
+    + destruct (authorize_all c (write_reqs r)) eqn:A.
+      * intros _. apply authorize_all_ok; exact A.
+      * intro H. exfalso. revert H. apply err_not_ok_unchanged. discriminate.
+      * intro H. exfalso. revert H. apply err_not_ok_unchanged. discriminate.
+    + intro H. exfalso. revert H. apply err_not_ok_unchanged. discriminate.
+  - destruct (authorize_all c (write_reqs (stub k id))) eqn:A.
+    + intros _. apply authorize_all_ok in A.
+      destruct (lookup s k id) as [r|] eqn:L; [|exact A].
+      apply lookup_some in L as [_ [L2 L3]]. rewrite <- (write_reqs_stub k id r LF L2 L3). exact A.
+    + intro H. exfalso. revert H. apply err_not_ok_unchanged. discriminate.
+    + intro H. exfalso. revert H. apply err_not_ok_unchanged. discriminate.
+Qed.
+
+Theorem mutation_requires_write c s x :
+  let r := step c s x in
+  cls r = E_OK \/ st r <> s -> write_authorized c s x.
+Proof.
+  destruct x as [k v id|k f|v new sysids|k v id pay a|k v id]; cbn [step write_authorized]; try (intros; exact I).
+  - apply create_requires.
+  - apply guarded_mut_requires.
+  - apply guarded_mut_requires.
+Qed.
+
+(** Token creation: every granted permission is held by the caller. *)
+Theorem token_requires_held c s v new sysids q :
+  r_kind new = KAuth ->
+  (let r := step c s (CCreate v new sysids) in cls r = E_OK \/ st r <> s) ->
+  In q (r_perms new) -> holds c q.
+Proof.
+  intros K H Hq. apply mutation_requires_write in H. destruct H as [_ H].
+  specialize (H K). rewrite Forall_forall in H. apply H; exact Hq.
+Qed.
+
+(** * denied_leaves_state *)
+
+Lemma svc_create_cls c s new sysids :
+  let r := svc_create c s new sysids in cls r = E_OK \/ cls r = E_NOTFOUND \/ cls r = E_OTHER.
+Proof.
+  cbn. unfold svc_create. destruct (r_kind new); cbn;
+    repeat match goal with |- context [if ?b then _ else _] => destruct b; cbn end; auto.
+Qed.
+
+Lemma svc_update_cls s k id pay a :
+  let r := svc_update s k id pay a in cls r = E_OK \/ cls r = E_NOTFOUND \/ cls r = E_OTHER.
+Proof. cbn. unfold svc_update. destruct (lookup s k id); cbn; auto. Qed.
+
+Lemma svc_delete_cls s k id :
+  let r := svc_delete s k id in cls r = E_OK \/ cls r = E_NOTFOUND \/ cls r = E_OTHER.
+Proof.
+  cbn. unfold svc_delete. destruct (lookup s k id) as [r|]; cbn; auto.
+  destruct k; cbn; auto. destruct (r_sys r); cbn; auto.
+Qed.
+
+Definition denied (r : result) : Prop := cls r = E_UNAUTH \/ cls r = E_FORBID.
+
+Lemma not_denied_of_svc r :
+  cls r = E_OK \/ cls r = E_NOTFOUND \/ cls r = E_OTHER -> denied r -> False.
+Proof. unfold denied. intros [H|[H|H]] [D|D]; rewrite H in D; discriminate. Qed.
+
+Lemma guarded_mut_denied c s k id inner :
+  (cls inner = E_OK \/ cls inner = E_NOTFOUND \/ cls inner = E_OTHER) ->
+  denied (guarded_mut c s k id inner) -> st (guarded_mut c s k id inner) = s.
+Proof.
+  intros Hi. unfold guarded_mut. destruct (lookup_first_mut k).
+  - destruct (lookup s k id) as [r|]; [|reflexivity].
+    destruct (authorize_all c (write_reqs r)); try reflexivity.
+    intro D. exfalso. eapply not_denied_of_svc; eauto.
+  - destruct (authorize_all c (write_reqs (stub k id))); try reflexivity.
+    intro D. exfalso. eapply not_denied_of_svc; eauto.
+Qed.
+
+Theorem denied_leaves_state c s x :
+  denied (step c s x) -> st (step c s x) = s.
+Proof.
+  destruct x as [k v id|k f|v new sysids|k v id pay a|k v id]; cbn [step].
+  - intros _. apply find1_state.
+  - intros _. apply findn_state.
+  - unfold create. destruct (authorize_all c (create_reqs new)); try reflexivity.
+    destruct (r_kind new);
+      try (intro D; exfalso; eapply not_denied_of_svc; [apply svc_create_cls | exact D]).
+    destruct (negb (verify_perms c (r_perms new))); [reflexivity|].
+    destruct (_ && _); [reflexivity|].
+    intro D; exfalso; eapply not_denied_of_svc; [apply svc_create_cls | exact D].
+  - apply guarded_mut_denied, svc_update_cls.
+  - apply guarded_mut_denied, svc_delete_cls.
+Qed.
+
+(** Conversely, a mutating call the caller is not entitled to is answered with an error
+    and leaves the store unchanged (contrapositive of [mutation_requires_write]). *)
+Theorem unauthorized_mutation_rejected c s x :
+  ~ write_authorized c s x -> cls (step c s x) <> E_OK /\ st (step c s x) = s.
+Proof.
+  intro Hn. split.
+  - intro H. apply Hn. apply mutation_requires_write. left; exact H.
+  - destruct x as [k v id|k f|v new sysids|k v id pay a|k v id]; cbn [step].
+    + apply find1_state.
+    + apply findn_state.
+    + unfold create. destruct (authorize_all c (create_reqs new)) eqn:A; try reflexivity.
+      destruct (r_kind new) eqn:K;
+        try (exfalso; apply Hn; split; [apply authorize_all_ok; exact A | intro; congruence]).
+      destruct (negb (verify_perms c (r_perms new))) eqn:V; [reflexivity|].
+      exfalso; apply Hn; split; [apply authorize_all_ok; exact A|]. intros _.
+      apply verify_perms_ok. apply negb_false_iff in V; exact V.
+    + unfold update, guarded_mut. cbn [write_authorized] in Hn. unfold target in Hn.
+      destruct (lookup_first_mut k) eqn:LF.
+      * destruct (lookup s k id) as [r|] eqn:L; [|reflexivity].
+        destruct (authorize_all c (write_reqs r)) eqn:A; try reflexivity.
+        exfalso; apply Hn, authorize_all_ok, A.
+      * destruct (authorize_all c (write_reqs (stub k id))) eqn:A; try reflexivity.
+        exfalso; apply Hn. apply authorize_all_ok in A.
+        destruct (lookup s k id) as [r|] eqn:L; [|exact A].
+        apply lookup_some in L as [_ [L2 L3]]. rewrite <- (write_reqs_stub k id r LF L2 L3). exact A.
+    + unfold delete, guarded_mut. cbn [write_authorized] in Hn. unfold target in Hn.
+      destruct (lookup_first_mut k) eqn:LF.
+      * destruct (lookup s k id) as [r|] eqn:L; [|reflexivity].
+        destruct (authorize_all c (write_reqs r)) eqn:A; try reflexivity.
+        exfalso; apply Hn, authorize_all_ok, A.
+      * destruct (authorize_all c (write_reqs (stub k id))) eqn:A; try reflexivity.
+        exfalso; apply Hn. apply authorize_all_ok in A.
+        destruct (lookup s k id) as [r|] eqn:L; [|exact A].
+        apply lookup_some in L as [_ [L2 L3]]. rewrite <- (write_reqs_stub k id r LF L2 L3). exact A.
+Qed.
+
+(** An inactive token: nothing is returned, nothing changes. *)
+Lemma inactive_authorize_all c qs : c_active c = false -> qs <> [] -> authorize_all c qs <> AzOk.
+Proof.
+  intros Hc. destruct qs as [|q r]; [congruence|]. intros _. cbn. unfold authorize1, held. rewrite Hc. cbn.
+  destruct (negb (valid_req q)); discriminate.
+Qed.
+
+Theorem inactive_caller_gets_nothing c s x :
+  c_active c = false -> ids (step c s x) = [] /\ st (step c s x) = s.
+Proof.
+  intro Hc. split.
+  - destruct (ids (step c s x)) as [|i l] eqn:E; [reflexivity|].
+    assert (Hin : In i (ids (step c s x))) by (rewrite E; left; reflexivity).
+    apply no_leak in Hin. destruct Hin as [r [_ [_ [_ HF]]]].
+    exfalso. destruct r as [rk ri ro ru rs rp ra rps]. destruct rk; cbn in HF;
+      try destruct rs; inversion HF as [|q l' [Hact _] _]; congruence.
+  - destruct x as [k v id|k f|v new sysids|k v id pay a|k v id].
+    + apply find1_state.
+    + apply findn_state.
+    + apply unauthorized_mutation_rejected. cbn. intros [HF _].
+      destruct new as [rk ri ro ru rs rp ra rps]. destruct rk; cbn in HF;
+        inversion HF as [|q l' [Hact _] _]; congruence.
+    + apply unauthorized_mutation_rejected. cbn. intros HF.
+      destruct (target s k id) as [rk ri ro ru rs rp ra rps]. destruct rk; cbn in HF;
+        inversion HF as [|q l' [Hact _] _]; congruence.
+    + apply unauthorized_mutation_rejected. cbn. intros HF.
+      destruct (target s k id) as [rk ri ro ru rs rp ra rps]. destruct rk; cbn in HF;
+        inversion HF as [|q l' [Hact _] _]; congruence.
+Qed.
+
+(** * Histories *)
+
+Fixpoint trace (c : caller) (s : store) (xs : list call) : list (store * call * result) :=
+  match xs with
+  | [] => []
+  | x :: t => let r := step c s x in (s, x, r) :: trace c (st r) t
+  end.
+
+Lemma trace_run c xs : forall s, map snd (trace c s xs) = fst (run c s xs).
+Proof.
+  induction xs as [|x t IH]; intro s; cbn; [reflexivity|].
+  specialize (IH (st (step c s x))). destruct (run c (st (step c s x)) t) as [rs s'].
+  cbn in *. rewrite IH. reflexivity.
+Qed.
+
+Lemma trace_forall (P : store -> call -> result -> Prop) c :
+  (forall s x, P s x (step c s x)) ->
+  forall xs s, Forall (fun t => P (fst (fst t)) (snd (fst t)) (snd t)) (trace c s xs).
+Proof.
+  intros H xs. induction xs as [|x t IH]; intro s; cbn; constructor; cbn; auto.
+Qed.
+
+(** * Semantic closure of token creation: transitivity of [grants], and where it fails *)
+
+(** [grants] is transitive through a middle permission that does not name BOTH an id and an org. *)
+Lemma grants_trans p g q :
+  (rid (res g) = None \/ rorg (res g) = None) ->
+  grants p g -> grants g q -> grants p q.
+Proof.
+  intros Hg [Ha [Hi | [Ht Hp]]] [Ha' Hq]; split; try congruence.
+  - left; exact Hi.
+  - destruct Hq as [Hgi | [Ht' Hq]].
+    + left. congruence.
+    + right. split; [congruence|].
+      destruct Hp as [[Po Pi] | [[Pi [o [Po Go]]] | [i [Pi Gi]]]].
+      * left; auto.
+      * destruct Hq as [[Go' Gi'] | [[Gi' [o' [Go' Qo]]] | [i [Gi' Qi]]]].
+        -- congruence.
+        -- right; left. split; [exact Pi|]. exists o. split; [exact Po|]. congruence.
+        -- destruct Hg as [Hg|Hg]; congruence.
+      * destruct Hq as [[Go' Gi'] | [[Gi' [o' [Go' Qo]]] | [i' [Gi' Qi]]]].
+        -- congruence.
+        -- congruence.
+        -- right; right. exists i. split; [exact Pi|]. congruence.
+Qed.
+
+Definition one_scope (g : perm) : Prop := rid (res g) = None \/ rorg (res g) = None.
+
+(** If the caller holds every granted permission and none of them names both an id and an
+    org, the new token can do nothing the caller cannot. *)
+Lemma no_escalation_one_scope c granted :
+  Forall (holds c) granted -> Forall one_scope granted ->
+  forall q, allowed granted q = true -> holds c q.
+Proof.
+  intros Hh Ho q Hq. apply allowed_iff in Hq as [g [Hin Hg]].
+  rewrite Forall_forall in Hh, Ho. destruct (Hh g Hin) as [Hact [p [Hp Hpg]]].
+  split; [exact Hact|]. exists p. split; [exact Hp|].
+  eapply grants_trans; eauto. apply Ho; exact Hin.
+Qed.
